@@ -2,6 +2,7 @@ package binding
 
 import (
 	"encoding/json"
+	"errors"
 	"io"
 	"net/http"
 	"strings"
@@ -26,9 +27,15 @@ func (JSONBinder) BindBytes(bts []byte, ptr any) error {
 }
 
 func decodeJSON(r io.Reader, ptr any) error {
-	err := json.NewDecoder(r).Decode(ptr)
+	dec := json.NewDecoder(r)
+	err := dec.Decode(ptr)
 	if err != nil {
 		return err
+	}
+
+	// the body is one JSON document: only white space may follow the value
+	if _, err = dec.Token(); err != io.EOF {
+		return errors.New("invalid JSON data: unexpected content after the top-level value")
 	}
 
 	return Validate(ptr)
